@@ -7,7 +7,10 @@ Local Open Scope N_scope.
 Record obs := { o_err : N; o_contra : bool; o_heights : N * N * N;
                 o_infos : list (N * N * N * N * N * N); o_act : list (N * N * N);
                 o_pkeys : list N; o_imp : N; o_next : option N;
-                o_gkeys : list N; o_gens : list (N * option (list N)); o_at : list (N * N) }.
+                o_gkeys : list N; o_gens : list (N * option (list N)); o_at : list (N * N);
+                (* GetBFTParameters at probe heights: (height, None = error | Some (prevote, precommit, certificate threshold,
+                   validators as stored)); o_vhash: the stored validatorsHash equals the independently computed LIP-0058 hash *)
+                o_params : list (N * option (N * N * N * list (N * N))); o_vhash : bool }.
 
 Definition hist_case : Type := nat * N * pchange * list block * bool * list obs.
 
@@ -27,22 +30,36 @@ Definition act_eqb (a b : N * N * N) : bool :=
 Definition optN_eqb (a b : option N) : bool :=
   match a, b with None, None => true | Some x, Some y => x =? y | _, _ => false end.
 
+Definition params_eqb (a b : list (N * option (N * N * N * list (N * N)))) : bool :=
+  list_eqb (fun x y => (fst x =? fst y) &&
+                       match snd x, snd y with
+                       | None, None => true
+                       | Some (a1, a2, a3, l1), Some (b1, b2, b3, l2) =>
+                         (a1 =? b1) && (a2 =? b2) && (a3 =? b3) && list_eqb (fun u v => (fst u =? fst v) && (snd u =? snd v)) l1 l2
+                       | _, _ => false
+                       end) a b.
+
 Definition obs_of (s : store) (b : hdr) (contra : bool) (imp : res bool) : obs :=
   let v := s_votes s in
   {| o_err := 0; o_contra := contra; o_heights := (v_mhp v, v_mhpc v, v_mhc v);
      o_infos := map info_tuple (v_infos v); o_act := map act_tuple (v_act v);
      o_pkeys := map fst (s_params s);
      o_imp := match imp with Ok false => 0 | Ok true => 1 | Error _ => 2 end;
-     o_next := next_params_height (s_params s) (h_height b); o_gkeys := []; o_gens := []; o_at := [] |}.
+     o_next := next_params_height (s_params s) (h_height b); o_gkeys := []; o_gens := []; o_at := [];
+     o_params := map (fun h => (h, match get_params (s_params s) h with
+                                   | Ok p => Some (p_pv p, p_pc p, p_cert p, p_vals p) | Error _ => None end))
+                     [h_height b + 1; h_height b; oldest_height (v_infos v)];
+     o_vhash := true |}.
 Definition err_obs (e : N) (contra : bool) : obs :=
-  {| o_err := e; o_contra := contra; o_heights := (0, 0, 0); o_infos := []; o_act := []; o_pkeys := []; o_imp := 0; o_next := None; o_gkeys := []; o_gens := []; o_at := [] |}.
+  {| o_err := e; o_contra := contra; o_heights := (0, 0, 0); o_infos := []; o_act := []; o_pkeys := []; o_imp := 0; o_next := None; o_gkeys := []; o_gens := []; o_at := []; o_params := []; o_vhash := true |}.
 
 Definition obs_eqb (a b : obs) : bool :=
   (o_err a =? o_err b) && Bool.eqb (o_contra a) (o_contra b) &&
   (if o_err a =? 0 then
      (let '(x1, x2, x3) := o_heights a in let '(y1, y2, y3) := o_heights b in (x1 =? y1) && (x2 =? y2) && (x3 =? y3)) &&
      list_eqb info_eqb (o_infos a) (o_infos b) && list_eqb act_eqb (o_act a) (o_act b) &&
-     list_eqb N.eqb (o_pkeys a) (o_pkeys b) && (o_imp a =? o_imp b) && optN_eqb (o_next a) (o_next b)
+     list_eqb N.eqb (o_pkeys a) (o_pkeys b) && (o_imp a =? o_imp b) && optN_eqb (o_next a) (o_next b) &&
+     params_eqb (o_params a) (o_params b) && Bool.eqb (o_vhash a) (o_vhash b)
    else true).
 
 (* model observations for a history; stops at the first error like the harness *)
@@ -71,7 +88,9 @@ Definition obs_prop_eqb (a b : obs) : bool :=
      (let '(x1, x2, x3) := o_heights a in let '(y1, y2, y3) := o_heights b in (x1 =? y1) && (x2 =? y2) && (x3 =? y3)) &&
      list_eqb info_eqb (o_infos a) (o_infos b) &&
      (* which heights carry their own parameters (validator-set / threshold changes in force) is part of the property *)
-     list_eqb N.eqb (o_pkeys a) (o_pkeys b) && optN_eqb (o_next a) (o_next b)
+     list_eqb N.eqb (o_pkeys a) (o_pkeys b) && optN_eqb (o_next a) (o_next b) &&
+     (* ... and so are the thresholds and the validator weights GetBFTParameters reports for a height *)
+     params_eqb (o_params a) (o_params b) && Bool.eqb (o_vhash a) (o_vhash b)
    else true).
 
 Definition check_hist (c : hist_case) : N :=
@@ -104,7 +123,7 @@ Definition probe (gs : @kstore generators) (h : N) : N * option (list N) :=
 
 Definition with_gens (o : obs) (gs : @kstore generators) (tip oldest : N) : obs :=
   {| o_err := o_err o; o_contra := o_contra o; o_heights := o_heights o; o_infos := o_infos o; o_act := o_act o;
-     o_pkeys := o_pkeys o; o_imp := o_imp o; o_next := o_next o;
+     o_pkeys := o_pkeys o; o_imp := o_imp o; o_next := o_next o; o_params := o_params o; o_vhash := o_vhash o;
      o_gkeys := map fst gs;
      o_gens := [probe gs (tip + 1); probe gs tip; probe gs oldest];
      o_at := match klookup gs (tip + 1) None with
